@@ -221,6 +221,96 @@ def run(ctx):
                 not any(cfg.pos_of(i['i']) and cfg.pos_of(i['i'])[0] in cfg.pdom().get(pd[0], ()) for i in incs):
             ctx.report(d2, key, g.loc(dnode), 'a draw from the engine is not counted: ForwardToFaultRandomCount cannot '
                        'replay to this point')
+    # the converse, per path: the counter and the engine advance together (one draw and one count on EVERY path) —
+    # ForwardToFaultRandomCount replays a recorded count by calling GetRandNumber that many times
+    key = 'D2 GetRandNumber: counter and engine advance together'
+    if incs:
+        from vlib import pathwalk
+
+        class _DrawWalker(pathwalk.Walker):
+            loop_bound = 1
+
+            def on_node(self, fn, n, st):
+                if n['k'] == 'CXXOperatorCallExpr' and n.get('op') == '()' and ENGINE_T.search(n.get('cr', '')):
+                    st.events.append(('draw', fn.loc(n)))
+                elif n['k'] in ('UnaryOperator', 'CompoundAssignOperator') and n.get('ch') and \
+                        (fn.sn(n['ch'][0]) or {}).get('dn') == 'yaclib::detail::sRandCount':
+                    st.events.append(('count', fn.loc(n)))
+        res = _DrawWalker(fb).run(g)
+        ctx.instance(d2, key, dict(paths=len(res)))
+        for st, _ in res:
+            nd = sum(1 for e in st.events if e[0] == 'draw')
+            nc = sum(1 for e in st.events if e[0] == 'count')
+            if nd != nc or nd != 1:
+                ctx.report(d2, key, g.where, 'a path through GetRandNumber counts %d draw(s) but takes %d from the '
+                           'engine: after ForwardToFaultRandomCount (which advances by calling GetRandNumber) the draw '
+                           'count is restored while the engine is somewhere else, so the run continues differently' % (
+                               nc, nd))
+                break
+    # ForwardToRandCount(n) takes exactly n counted draws
+    fw = [f for f in fb.by_qn('yaclib::detail::ForwardToRandCount') if f.cfg is not None]
+    if fw and incs:
+        f = fw[0]
+        key = 'D2 ForwardToRandCount advances by exactly the recorded count'
+        ctx.instance(d2, key, None)
+        loops = [n for n in f.own_nodes() if n['k'] in ('ForStmt', 'WhileStmt', 'DoStmt')]
+        calls = [n for n in f.own_nodes() if n.get('cn') == 'yaclib::detail::GetRandNumber']
+        ok = None
+        if len(loops) == 1 and len(calls) == 1 and loops[0]['k'] == 'ForStmt' and \
+                calls[0]['i'] in f.descendants(loops[0]['body']):
+            lp = loops[0]
+            body = set(f.descendants(lp['body']))
+
+            def val(i):
+                """('c', k) for a constant, ('p',) for the count parameter, None otherwise"""
+                n = f.sn(i)
+                if n is None:
+                    return None
+                if n.get('v') is not None and 'id' not in n:
+                    return ('c', n['v'])
+                if n['k'] == 'DeclRefExpr' and n.get('id') in f.params:
+                    return ('p',)
+                return None
+            ind = start = None
+            for d in f.descendants(lp['i']):
+                m = f.nodes[d]
+                if m['k'] == 'DeclStmt' and d not in body:
+                    for v in m['vars']:
+                        if 'init' in v:
+                            ind, start = v['id'], val(v['init'])
+            step = 0
+            nsteps = 0
+            for d in f.descendants(lp['i']):
+                m = f.nodes[d]
+                if d in body or m['k'] not in ('UnaryOperator', 'CompoundAssignOperator'):
+                    continue
+                if (f.sn(m['ch'][0]) or {}).get('id') != ind:
+                    continue
+                if m['k'] == 'UnaryOperator' and m.get('op') in ('++', '--'):
+                    step, nsteps = (1 if m['op'] == '++' else -1), nsteps + 1
+                elif m['k'] == 'CompoundAssignOperator' and m.get('op') in ('+=', '-=') and val(m['ch'][1]) == ('c', 1):
+                    step, nsteps = (1 if m['op'] == '+=' else -1), nsteps + 1
+            c = f.sn(lp['cond']) if 'cond' in lp else None
+            bound = None
+            if c is not None and c['k'] == 'BinaryOperator' and ind is not None:
+                a, b = f.sn(c['ch'][0]), f.sn(c['ch'][1])
+                if a is not None and a['k'] == 'DeclRefExpr' and a.get('id') == ind:
+                    bound, cop = val(c['ch'][1]), c['op']
+                elif b is not None and b['k'] == 'DeclRefExpr' and b.get('id') == ind:
+                    bound, cop = val(c['ch'][0]), {'<': '>', '>': '<'}.get(c['op'], c['op'])
+            if bound is not None and start is not None and nsteps == 1:
+                # trip count: counting up from `start` while ind != / < bound, or down while ind != / > bound
+                up = step == 1 and cop in ('!=', '<') and start == ('c', 0) and bound == ('p',)
+                down = step == -1 and cop in ('!=', '>') and start == ('p',) and bound == ('c', 0)
+                ok = up or down
+            elif bound is not None or start is not None:
+                ok = False
+        if ok is None:
+            ctx.broken('D2: the replay loop of ForwardToRandCount is not recognised')
+        if not ok:
+            ctx.report(d2, key, f.where, 'ForwardToRandCount does not take exactly `random_count` counted draws (a loop of '
+                       'exactly that many iterations, one GetRandNumber each): a restored run continues '
+                       'from another engine position than the recorded one')
     key = 'D2 SetSeed restarts engine and draw counter'
     ctx.instance(d2, key, None)
 
